@@ -986,6 +986,9 @@ func (w *World) CraftJWT(variant, jti, sub, client string, idToken bool) *Tok {
 	switch variant {
 	case "other-issuer":
 		iss = "https://other-op.example.com"
+	case "near-issuer": // ANOTHER issuer whose identifier differs only by letter case / a trailing slash; the provider's own key
+		iss = drv.Pick(w.R, []string{iss + "/", strings.ToUpper(iss[:9]) + iss[9:], iss[:8] + strings.ToUpper(iss[8:]),
+			strings.Replace(iss, "op.", "Op.", 1), strings.ToUpper(iss), iss + "//", strings.TrimSuffix(iss, "m") + "M/"})
 	case "wrong-key":
 		key = &refstore.SigningKey{KID: key.KID, Alg: jose.ES256, Priv: opfix.ECKey("not-the-op-key")}
 		d.sigOK = false
